@@ -2,26 +2,63 @@
 from absint import *
 
 
+_CAPS = None
+
+
+def _cap_types():
+    global _CAPS
+    if _CAPS is None:
+        import json
+        import os
+        import core
+        _CAPS = json.load(open(os.path.join(core.VERIF, "spec", "captures.json")))
+    return _CAPS
+
+
 def make_env(facts, cpath, values):
     """values: {capture name (without leading '*'): abstract value of the captured variable}
-    returns (env AdtVal, {name: Cell holding the captured variable})"""
+    returns (env AdtVal, {name: Cell holding the captured variable}).
+    A capture whose name the rule does not know is matched by TYPE with a value the closure no longer captures by name
+    (spec/captures.json records the types on the pinned tree): renaming a captured variable is not a finding.  Several
+    renamed captures of one type are matched in capture order."""
     f = facts.fn(cpath)
+    caps = f["captures"]
+    names = [c["name"].lstrip("*") for c in caps]
+    assign = {}
+    for i, n in enumerate(names):
+        if n in values:
+            assign[i] = n
+    free_vals = [k for k in values if k not in names]
+    if free_vals and len(assign) < len(caps):
+        types = _cap_types().get(cpath.split("::{closure")[0], {})
+        by_ty = {}
+        for k in free_vals:
+            if k in types:
+                by_ty.setdefault(types[k], []).append(k)
+        free_caps = {}
+        for i, c in enumerate(caps):
+            if i not in assign:
+                free_caps.setdefault(c["ty"], []).append(i)
+        for ty, idxs in free_caps.items():
+            ks = by_ty.get(ty, [])
+            if len(ks) == len(idxs):
+                # keep the spec's relative order (the order of the values dict as written by the rule)
+                for i, k in zip(idxs, ks):
+                    assign[i] = k
     fields = {}
     cells = {}
-    for i, c in enumerate(f["captures"]):
-        name = c["name"].lstrip("*")
-        if name not in values:
-            raise KeyError("anchor-missing: closure %s captures `%s` which the rule does not know" % (cpath, name))
+    for i, c in enumerate(caps):
+        if i not in assign:
+            raise KeyError("anchor-missing: closure %s captures `%s` (%s) which the rule does not know" % (cpath, names[i], c["ty"]))
+        name = assign[i]
         v = values[name]
+        cell = v if isinstance(v, Cell) else Cell(v, name)
+        cells[name] = cell
         if c["by"].startswith("ByRef"):
-            cell = v if isinstance(v, Cell) else Cell(v, name)
-            cells[name] = cell
             fields[i] = Cell(Ref(cell, "Mutable" in c["by"] or "Mut" in c["by"]))
         else:
-            cell = v if isinstance(v, Cell) else Cell(v, name)
-            cells[name] = cell
             fields[i] = cell
-    unknown = set(values) - set(c["name"].lstrip("*") for c in f["captures"])
+    unknown = set(values) - set(assign.values())
     if unknown:
         raise KeyError("anchor-missing: closure %s no longer captures %s" % (cpath, sorted(unknown)))
     return AdtVal("closure:" + cpath, None, fields), cells
